@@ -4,7 +4,7 @@ import time
 
 from . import core
 
-ELEMS = {"TC16A": "vf::TC16A", "K1": "vf::K1", "K2": "vf::K2", "int": "int", "double": "double", "NTRTM": "vf::NTR_TM", "TC1": "vf::TC1", "TC4": "vf::TC4", "TC8": "vf::TC8", "TC12": "vf::TC12", "TR": "vf::TR", "NTR": "vf::NTR"}
+ELEMS = {"NTRNCC": "vf::NTR_NCC", "TRNCA": "vf::TR_NCA", "NTRNCA": "vf::NTR_NCA", "TRNCC": "vf::TR_NCC", "TC16A": "vf::TC16A", "K1": "vf::K1", "K2": "vf::K2", "int": "int", "double": "double", "NTRTM": "vf::NTR_TM", "TC1": "vf::TC1", "TC4": "vf::TC4", "TC8": "vf::TC8", "TC12": "vf::TC12", "TR": "vf::TR", "NTR": "vf::NTR"}
 
 
 def alloc_expr(kind, elem):
@@ -452,6 +452,11 @@ FAULT_QUICK = [
     fault_cfg("s", 4, "NTR", "basic", "uint32_t", std="c++14"),
     fault_cfg("v", 0, "TR", "realloc", "uint32_t", std="c++14"),
     fault_cfg("s", 4, "NTR", "exact", "uint32_t", std="c++20"),  # C++20: concepts-based dispatch (iterator categories of move iterators and views differ)
+    # asymmetric copies: only one of copy construction / copy assignment may throw (code deciding from the nothrow-ness of one about the other)
+    fault_cfg("v", 0, "NTRNCC", "basic", "uint32_t"),
+    fault_cfg("s", 4, "TRNCA", "basic", "uint32_t"),
+    fault_cfg("f", 8, "NTRNCA", "none", "uint8_t"),
+    fault_cfg("s", 3, "TRNCC", "exact", "uint32_t"),
 ]
 FAULT_THOROUGH = [
     fault_cfg("v", 0, "NTR", "exact", "int16_t"),
